@@ -631,7 +631,10 @@ Definition micro (s : state) (t : nat) (rec : list Z) : option (state * list Z) 
           | [] => ret s x k []
           | c :: r => match fst c with
                       | O => ret s x (FKids depth ne curr r :: k) []
-                      | S _ => ret s x (FKid118 c depth ne curr r :: k) []
+                      | S _ =>
+                          (* a fresh epoch (modular window) for every child: D9 repair *)
+                          let s1 := see_epoch s (oracle_epoch s rec 1132) in
+                          ret s1 x (FKid118 c depth ne (G s1) r :: k) [1132; zo (fst c); G s1]
                       end
           end
       | FKid118 c depth ne curr outs =>
